@@ -95,6 +95,52 @@ pub fn model_batch(model_bin: &str, family: &str, reqs: &[String]) -> Vec<String
     res
 }
 
+/// Persistent model driver process for interactive request/response use.
+pub struct Model {
+    child: std::process::Child,
+    stdin: std::process::ChildStdin,
+    stdout: BufReader<std::process::ChildStdout>,
+    pub requests: u64,
+}
+
+impl Model {
+    pub fn spawn(model_bin: &str, family: &str) -> Model {
+        let mut child = Command::new(model_bin)
+            .arg(family)
+            .stdin(Stdio::piped())
+            .stdout(Stdio::piped())
+            .spawn()
+            .unwrap_or_else(|e| panic!("cannot start model driver {model_bin}: {e}"));
+        let stdin = child.stdin.take().unwrap();
+        let stdout = BufReader::new(child.stdout.take().unwrap());
+        Model { child, stdin, stdout, requests: 0 }
+    }
+    pub fn ask(&mut self, line: &str) -> String {
+        self.requests += 1;
+        self.stdin.write_all(line.as_bytes()).unwrap();
+        self.stdin.write_all(b"\n").unwrap();
+        self.stdin.flush().unwrap();
+        let mut s = String::new();
+        self.stdout.read_line(&mut s).unwrap();
+        if s.is_empty() {
+            panic!("model driver closed its output after request: {line}");
+        }
+        s.trim_end().to_string()
+    }
+    /// pipelined: write all, then read all (requests must be small enough for the pipe buffers
+    /// or few; used for short setup sequences)
+    pub fn ask_all(&mut self, lines: &[String]) -> Vec<String> {
+        lines.iter().map(|l| self.ask(l)).collect()
+    }
+}
+
+impl Drop for Model {
+    fn drop(&mut self) {
+        let _ = self.child.kill();
+        let _ = self.child.wait();
+    }
+}
+
 #[derive(Clone, Debug)]
 pub struct Finding {
     pub case: String,
@@ -118,6 +164,7 @@ pub struct Report {
 }
 
 const KEEP: usize = 200;
+const KEEP_ORACLE: usize = 6000;
 
 impl Report {
     pub fn new(engine: &str, rule: &str) -> Self {
@@ -155,7 +202,7 @@ impl Report {
         self.n_oracle_failures += 1;
         // keep at most a few per signature so that rare signatures are not crowded out
         let same = self.oracle_failures.iter().filter(|f| f.signature == signature).count();
-        if same < 3 && self.oracle_failures.len() < KEEP {
+        if same < 3 && self.oracle_failures.len() < KEEP_ORACLE {
             self.oracle_failures.push(Finding { case, detail, signature });
         }
         let k = format!("oracle_fail:{}", self.oracle_failures.last().map(|f| f.signature.clone()).unwrap_or_default());
